@@ -198,6 +198,28 @@ def manyLoop (p : P) : Nat → Val → St → Res
 
 def manyS (fuel : Nat) (p : P) : P := fun s => manyLoop p fuel .falsy s
 
+/-- the bounds test in front of a manual lookahead `self._tokens[self._index + k]` -/
+inductive Guard where
+  | strict     -- `self._index + k < size`   (correct)
+  | offByOne   -- `not (self._index + k > size)`, i.e. `≤`  (reads one past the end when the chunk ends right there)
+  | none       -- no test at all
+  deriving DecidableEq, Repr
+
+def Guard.pass (g : Guard) (i k size : Nat) : Bool :=
+  match g with
+  | .strict => decide (i + k < size)
+  | .offByOne => decide (i + k ≤ size)
+  | .none => true
+
+def lookAt (toks : List Tok) (j : Nat) (t : Tok) (s : St) : Res :=
+  match toks[j]? with
+  | some t' => (.ret (Val.ofBool (t' == t)), s)
+  | none => (.internal, s)      -- IndexError: list index out of range
+
+/-- a manual lookahead: `guard and self._tokens[self._index + k].token_type == t` -/
+def peekAt (toks : List Tok) (k : Nat) (t : Tok) (g : Guard) : P := fun s =>
+  if g.pass s.idx k toks.length then lookAt toks (s.idx + k) t s else (.ret .falsy, s)
+
 /-- the token-by-token walk of `_match_text_seq`: (all texts matched?, state where it stopped) -/
 def textSeqGo (toks : List Tok) : List Tok → St → Bool × St
   | [], s => (true, s)
@@ -264,6 +286,7 @@ inductive Comb where
   | restOfChunk                           -- while self._curr: self._advance()
   | ifTok (ts : List Tok) (p q : Comb)    -- if self._match_set(ts): return p() ; return q()
   | tableLoop (keys : List Tok) (p : Comb) (consume : Bool)   -- dispatch-table loop, one body for every key
+  | peekAt (k : Nat) (t : Tok) (g : Guard)      -- guard and self._tokens[self._index + k].token_type == t
   deriving Repr
 
 /-- the semantics; `fuel` caps the number of iterations of each single loop activation -/
@@ -289,6 +312,7 @@ def run (toks : List Tok) (fuel : Nat) : Comb → P
   | .restOfChunk => restOfChunk toks
   | .ifTok ts p q => ifTokS toks ts (run toks fuel p) (run toks fuel q)
   | .tableLoop keys p c => tableLoopS toks keys c fuel (fun _ => run toks fuel p)
+  | .peekAt k t g => peekAt toks k t g
 
 /-- never moves the cursor when it returns (syntactic sufficient condition) -/
 def Comb.still : Comb → Bool
@@ -297,6 +321,7 @@ def Comb.still : Comb → Bool
   | .attempt p => p.still
   | .tryParse p rt => rt || p.still
   | .textSeq _ adv => !adv
+  | .peekAt _ _ _ => true
   | _ => false
 
 /-- never returns a falsy value (syntactic sufficient condition) -/
@@ -326,6 +351,7 @@ def Comb.restoring : Comb → Bool
   | .restOfChunk => true
   | .ifTok _ p q => p.total && q.restoring
   | .tableLoop _ _ _ => false
+  | .peekAt _ _ _ => true
 
 /-- a truthy result means at least one token was consumed (syntactic sufficient condition) -/
 def Comb.consuming : Comb → Bool
@@ -343,6 +369,7 @@ def Comb.consuming : Comb → Bool
   | .restOfChunk => false
   | .ifTok _ _ q => q.consuming
   | .tableLoop _ _ _ => false
+  | .peekAt _ _ _ => false
 
 /-- no bare `_advance()`, and every `while True` loop body consumes input when it reports success -/
 def Comb.wf : Comb → Bool
@@ -354,6 +381,7 @@ def Comb.wf : Comb → Bool
   | .textSeq _ _ | .restOfChunk => true
   | .ifTok _ p q => p.wf && q.wf
   | .tableLoop _ p c => p.wf && (c || p.consuming)
+  | .peekAt _ _ g => g == .strict
 
 /-- explicit step bound in the number `r` of remaining tokens -/
 def Comb.bound : Comb → Nat → Nat
@@ -368,6 +396,7 @@ def Comb.bound : Comb → Nat → Nat
   | .restOfChunk, r => r
   | .ifTok _ p q, r => p.bound r + q.bound r + 1
   | .tableLoop _ p _, r => (r + 1) * (p.bound r + 1)
+  | .peekAt _ _ _, _ => 0
 
 /-- loop nesting depth = degree of the bound -/
 def Comb.depth : Comb → Nat
@@ -379,6 +408,7 @@ def Comb.depth : Comb → Nat
   | .restOfChunk => 1
   | .ifTok _ p q => max p.depth q.depth
   | .tableLoop _ p _ => p.depth + 1
+  | .peekAt _ _ _ => 0
 
 /-- leading coefficient of the bound -/
 def Comb.coeff : Comb → Nat
@@ -393,6 +423,7 @@ def Comb.coeff : Comb → Nat
   | .restOfChunk => 1
   | .ifTok _ p q => p.coeff + q.coeff + 1
   | .tableLoop _ p _ => p.coeff + 1
+  | .peekAt _ _ _ => 0
 
 /-- `_parse_wrapped_csv(p, sep, optional)` = `_parse_wrapped(lambda: _parse_csv(p, sep), optional)` -/
 def Comb.wrappedCsv (p : Comb) (sep : Tok) (optional : Bool) : Comb := .wrapped (.csv p sep) optional
